@@ -212,6 +212,11 @@ def _arr_like(v):
 
 def binop(ex, op, a, b):
     from .strings import SStr, sconcat
+    from .libos import PathVal, path_concat
+    if isinstance(a, PathVal) or isinstance(b, PathVal):
+        if op == "Add":
+            return path_concat(ex, a, b)
+        raise Unsupported(f"operator {op} on a path")
     # strings
     if isinstance(a, (str, SStr)) and isinstance(b, (str, SStr)) and op == "Add":
         return sconcat(ex, [a, b])
@@ -373,6 +378,14 @@ def compare(ex, op, a, b):
         return not t
     if _is_scalar(a) and _is_scalar(b):
         return scalar_cmp(op, a, b)
+    from .libos import PathVal, path_eq
+    if isinstance(a, PathVal) or isinstance(b, PathVal):
+        if op not in ("Eq", "NotEq"):
+            raise Unsupported("ordering of paths")
+        if not isinstance(a, (PathVal, str)) or not isinstance(b, (PathVal, str)):
+            return op == "NotEq"
+        r = path_eq(ex, a, b)
+        return r if op == "Eq" else not r
     from .libfile import Line
     from .headers import CanonHdr, line_eq
     if isinstance(a, (Line, CanonHdr)) or isinstance(b, (Line, CanonHdr)):
